@@ -17,7 +17,7 @@ VARIABLES cfg, init, nwrites, raise_at,      \* scenario
 vars == <<cfg, init, nwrites, raise_at, pc, evs, dest, part, ubuf, wi, nfaults, raised, body_raised>>
 
 OLDMODE == 416     \* 0o640
-Cfgs == [overwrite : BOOLEAN, overwrite_part : BOOLEAN, rm_part_on_exc : BOOLEAN, perms : {0, 384}, umask_default : {420}]
+Cfgs == [overwrite : BOOLEAN, overwrite_part : BOOLEAN, rm_part_on_exc : BOOLEAN, perms : {-1, 0, 384}, umask_default : {420}]
 Inits == [dest : {[st |-> "absent", mode |-> 0], [st |-> "old", mode |-> OLDMODE]},
           part : {[st |-> "absent", size |-> 0], [st |-> "stale", size |-> 3]}]
 
@@ -28,7 +28,7 @@ Init == /\ cfg \in Cfgs /\ init \in Inits
 
 Ev(name, tgt, faulted, n, d, p) == [name |-> name, target |-> tgt, faulted |-> faulted, n |-> n, dest |-> d, part |-> p]
 Total == nwrites
-ModeFor == IF cfg.perms # 0 THEN cfg.perms ELSE IF init.dest.st = "old" THEN OLDMODE ELSE cfg.umask_default
+ModeFor == IF cfg.perms >= 0 THEN cfg.perms ELSE IF init.dest.st = "old" THEN OLDMODE ELSE cfg.umask_default
 
 (* one call: either it works (effect) or, within the fault budget, it fails (no effect) and control goes to `onfail` *)
 Call(name, tgt, n, d2, p2, u2, next, onfail) ==
@@ -57,7 +57,7 @@ Step ==
         ELSE Call("open", "part", 0, IF WriteInPlace THEN [st |-> "other", mode |-> ModeFor] ELSE dest,
                   [st |-> "file", size |-> 0], 0, "fdopen", "end")
      /\ UNCHANGED <<wi, body_raised>> /\ Keep
-  \/ /\ pc = "fdopen" /\ Call("fdopen", "part", 0, dest, part, ubuf, IF cfg.perms # 0 \/ init.dest.st = "old" THEN "chmod" ELSE "body", "setup_cleanup")
+  \/ /\ pc = "fdopen" /\ Call("fdopen", "part", 0, dest, part, ubuf, IF cfg.perms >= 0 \/ init.dest.st = "old" THEN "chmod" ELSE "body", "setup_cleanup")
      /\ UNCHANGED <<wi, body_raised>> /\ Keep
   \/ /\ pc = "chmod" /\ Call("chmod", "part", 0, dest, part, ubuf, "body", "setup_cleanup")
      /\ UNCHANGED <<wi, body_raised>> /\ Keep
